@@ -126,11 +126,18 @@ def gen_dp(rng, n, tier):
             c = rng.choice([v for v in cands if v > 0] or [sc])
             eps = c * rng.choice([0.9, 0.99, 1.01, 1.1, 1.2, 1.35])
         out.append({'pts': pts, 'eps': eps, 'tmode': rng.choice(['inc', 'inc', 'equal', 'dec', 'shuffle'])})
-    for _ in range(max(2, n // 300)):
+    for r in range(max(3, n // 300)):
         # long tracks (more than a thousand fixes), of the shapes where the farthest fix from the chord's line is not the farthest from the chord:
         # out-and-back along a street, a closed circle, a collinear run overshooting its end (oracle only)
-        shape = rng.choice(['deadend', 'circle', 'overshoot'])
+        shape = rng.choice(['deadend', 'circle', 'overshoot', 'sawtooth']) if r else 'sawtooth'
         m = rng.choice([1201, 1501])
+        if shape == 'sawtooth':
+            # a saw-tooth (a boat tacking, a mower): the farthest fix from the chord is always next to an end of the piece, so the recursion is as deep as the track is long
+            # (several hundred levels; the interpreter's own limit is reached near a thousand)
+            m = rng.choice([650, 800]); amp = rng.choice([5.0, 3.0]); damp = rng.choice([1.0, 0.999])
+            pts = [[float(i), amp * (damp ** i) * (1 if i % 2 else -1)] for i in range(m)]
+            out.append({'pts': pts, 'eps': rng.choice([0.5, 2]), 'tmode': 'inc'})
+            continue
         if shape == 'deadend':
             pts = [[float(i), 0.0] for i in range(0, 2 * m // 3)] + [[float(2 * m // 3 - j), 0.0] for j in range(m - 2 * m // 3)]
         elif shape == 'circle':
